@@ -503,7 +503,59 @@ func Result(ret *ssa.Return, k int) ssa.Value {
 		}
 		v = Unspill(r)
 	}
+	// `return report(X), ...` where report hands its argument back unchanged on every path
+	for i := 0; i < 3; i++ {
+		a, ok := IdentityCallArg(v)
+		if !ok {
+			break
+		}
+		v = Unspill(a)
+	}
 	return v
+}
+
+// IdentityCallArg: v is a static call of a function with a body and a single result that returns one and the same of
+// its parameters on every path (whatever else it does); the corresponding argument is returned.
+func IdentityCallArg(v ssa.Value) (ssa.Value, bool) {
+	call, ok := v.(*ssa.Call)
+	if !ok || call.Call.IsInvoke() {
+		return nil, false
+	}
+	callee := call.Call.StaticCallee()
+	if callee == nil || callee.Blocks == nil || callee.Signature.Results().Len() != 1 {
+		return nil, false
+	}
+	var p *ssa.Parameter
+	n := 0
+	for _, b := range callee.Blocks {
+		ret, ok := b.Instrs[len(b.Instrs)-1].(*ssa.Return)
+		if !ok {
+			continue
+		}
+		n++
+		r := ret.Results[0]
+		for {
+			if ct, ok := r.(*ssa.ChangeType); ok {
+				r = ct.X
+				continue
+			}
+			break
+		}
+		q, ok := r.(*ssa.Parameter)
+		if !ok || (p != nil && q != p) {
+			return nil, false
+		}
+		p = q
+	}
+	if n == 0 || p == nil || callee.Recover != nil {
+		return nil, false
+	}
+	for i, q := range callee.Params {
+		if q == p && i < len(call.Call.Args) {
+			return call.Call.Args[i], true
+		}
+	}
+	return nil, false
 }
 
 // ReachingStore resolves a load of a local cell to the value of the single store that reaches it on every path from the
